@@ -13,7 +13,7 @@ def driver_args(tier, seed, phase):
 
 DRIVER_TIMEOUT = {"quick": 300, "thorough": 3600}
 
-RULE = ("catalogue (41 malformed strings: stray/unbalanced brackets, empty port, port 0/65536/99999, trailing colon, "
+RULE = ("catalogue (about 40 malformed strings: stray/unbalanced brackets, empty port, port 0/65536/99999, trailing colon, "
         "zone; every good and bad port text x name / IPv4 / [IPv6]; every scheme incl. unknown ones x host forms) "
         "followed by seeded random strings of the grammar {scheme} x {name, IPv4, IPv6 bare/bracketed, compressed/full/"
         "mapped, random hex-and-colon text} x {no port, good port, bad port} x {no dial_addr, dial_addr of every form} "
